@@ -372,7 +372,12 @@ def run_simulator(param_input: Union[str, Dict], workload: Workload = None) -> S
     # TODO: better way to calculate work throuphput, going by num ops, etc. is
     # going to skew towards more smaller jobs
     throughput = executor.num_completed() / params['duration']
-    p99 = np.percentile(executor.container_tick_times(), 99) / params["ticks_per_second"]
+    container_tick_times = executor.container_tick_times()
+    if container_tick_times:
+        p99 = np.percentile(container_tick_times, 99) / params["ticks_per_second"]
+    else:
+        # no container finished during the run
+        p99 = float('nan')
 
     # Compute pipeline stats by category
     all_arrivals = sum(pipeline_arrivals_by_priority.values())
